@@ -162,3 +162,52 @@ register(
     ],
     components={"real": REAL, "stub": "none", "harness": "Node subclasses with other separators; the reference glob is harness code"},
 )
+register(
+    "C14",
+    "srch",
+    quick=40000,
+    thorough=1000000,
+    level="exploration",
+    title="search functions return the filtered pre-order and enforce their count bounds; cached twins agree",
+    rule="a run = a history of 4..30 operations mixing structural mutations, attribute writes/deletes and queries; queries "
+    "are objects kept in a pool (same start node, same filter/stop callables, same bounds; bounds drawn from {None, 0, "
+    "count-1, count, count+1}) and re-issued after mutations, each to anytree.search and anytree.cachedsearch, with a drawn "
+    "number of positional arguments.  A case = one query judged against the harness's reference pre-order and count rule, "
+    "plus cached == uncached.  Signature = (function, forest shape with the start node marked, expected outcome class, "
+    "match-count class, maxlevel, which bounds are given, first/re-issued).",
+    assumptions=[
+        "fastcache is not installed in this sandbox: the cache layer is a pass-through, and that pass-through behaviour is what is checked",
+        "seeded sampling: a clean batch is evidence, not proof",
+    ],
+    components={"real": REAL, "stub": "none", "harness": HARNESS + "; filter/stop callables"},
+)
+EXPORT_RULE = (
+    "a run = one exporter object over a seeded tree (1..12 nodes; names with quotes, backslashes, spaces, newlines, "
+    "non-ASCII and collisions), a drawn stop set, filtered-out set, maxlevel in {None,0..4,n+2}, options/indent/graph/name "
+    "and custom name/attribute/edge functions, iterated in 1-4 sessions of 1-3 interleaved cursors (the scheduler picks "
+    "which cursor advances) with re-parenting, renames and new nodes between sessions.  A case = one exhausted cursor "
+    "judged against the admitted sub-forest.  Signature = (exporter kind, tree shape with filtered/stopped nodes marked, "
+    "maxlevel, which custom functions are set, size class); distinct_nontrivial counts distinct signatures."
+)
+register(
+    "C12",
+    "export",
+    quick=40000,
+    thorough=1000000,
+    level="exploration",
+    title="DOT export declares exactly the admitted nodes and only edges between them",
+    rule=EXPORT_RULE,
+    assumptions=["nodes stay alive for the whole run (identifiers are keyed by id(); reuse of a dead node's id is outside the statement)", "seeded sampling: a clean batch is evidence, not proof"],
+    components={"real": REAL, "stub": "none", "harness": "Node subclass, filter/stop/name/attribute callables"},
+)
+register(
+    "C13",
+    "export",
+    quick=40000,
+    thorough=1000000,
+    level="exploration",
+    title="Mermaid export declares exactly the admitted nodes and only edges between them",
+    rule=EXPORT_RULE + " to_file is exercised through an in-memory replacement of codecs.open.",
+    assumptions=["nodes stay alive for the whole run (identifiers are keyed by id())", "seeded sampling: a clean batch is evidence, not proof"],
+    components={"real": REAL, "stub": "codecs.open replaced by an in-memory file for to_file (the only I/O seam)", "harness": "Node subclass, filter/stop/name/node/edge callables"},
+)
